@@ -53,7 +53,10 @@ def impl(case):
         s = ss.pop(0) if ss else 0
         if s == 0:
             return (404, {}, 'not found')
-        return (200, {}, md5[s] + ('  data.bin\n' if case.get('with_name', True) else ''))
+        # the checksum file as md5sum writes it, bare, or bare with a trailing newline
+        tail = {'name': '  data.bin\n', 'bare': '', 'bare_nl': '\n', 'bare_crlf': '\r\n'}[
+            case.get('sumfmt') or ('name' if case.get('with_name', True) else 'bare')]
+        return (200, {}, md5[s] + tail)
     with C.scratch_dir() as d:
         path = d / 'data.bin'
         if case['prior'] is not None:
@@ -143,6 +146,7 @@ def tally(rep, case, impl_res, ans):
         rep.count('data_requests:%d' % impl_res['ok']['log'].count('data'))
     rep.count('size_probe(HEAD):%s' % case.get('head', 'none'))
     rep.count('output_path:%s' % case.get('pathkind', 'path'))
+    rep.count('checksum_file_format:%s' % (case.get('sumfmt') or ('name' if case.get('with_name', True) else 'bare')))
     rep.count('prior:%s' % case['prior'])
     rep.count('body:' + case.get('body', 'normal'))
 
@@ -176,7 +180,7 @@ def gen(tier, rng):
                             continue
                         k += 1
                         yield dict(p=PID, prior=prior, ds=list(ds), ss=list(ss), head=HEADS[k % 7],
-                                   pathkind=['path', 'str'][(k // 7) % 2])
+                                   pathkind=['path', 'str'][(k // 7) % 2], sumfmt=['name', 'bare', 'bare_nl', 'name', 'bare_crlf'][(k // 3) % 5])
                         if not q and ld <= 3:
                             yield dict(p=PID, prior=prior, ds=list(ds), ss=list(ss), head=HEADS[(k + 3) % 7])
     for body in ('empty', 'one', 'big'):
